@@ -51,6 +51,10 @@ func malformedCall(srv pb.DrummerServer, kind string) string {
 		return codeStr(srv.SetRegions(ctx(), &pb.Regions{}))
 	case "mismatchedregions":
 		return codeStr(srv.SetRegions(ctx(), &pb.Regions{Region: []string{"r1", "r2"}, Count: []uint64{3}}))
+	case "morecounts":
+		return codeStr(srv.SetRegions(ctx(), &pb.Regions{Region: []string{"r1"}, Count: []uint64{2, 1}}))
+	case "countsonly":
+		return codeStr(srv.SetRegions(ctx(), &pb.Regions{Count: []uint64{3}}))
 	}
 	panic(kind)
 }
@@ -102,7 +106,7 @@ func main() {
 	defer run.Close()
 	// 1. malformed configuration calls, each in a child process
 	safe := map[string]bool{}
-	for _, kind := range []string{"nomembers", "emptyapp", "emptyregions", "mismatchedregions"} {
+	for _, kind := range []string{"nomembers", "emptyapp", "emptyregions", "mismatchedregions", "morecounts", "countsonly"} {
 		cmd := exec.Command(os.Args[0], "-probe", kind)
 		outb, err := cmd.CombinedOutput()
 		res := ""
@@ -215,14 +219,19 @@ func main() {
 				counts := []uint64{1, 2}
 				kind := ""
 				if r.Intn(3) == 0 {
-					kind = []string{"emptyregions", "mismatchedregions"}[r.Intn(2)]
+					kind = []string{"emptyregions", "mismatchedregions", "morecounts", "countsonly"}[r.Intn(4)]
 					if !safe[kind] {
 						continue
 					}
-					if kind == "emptyregions" {
+					switch kind {
+					case "emptyregions":
 						regs, counts = nil, nil
-					} else {
+					case "mismatchedregions":
 						counts = counts[:1]
+					case "morecounts":
+						counts = append(counts, 1)
+					default:
+						regs = nil
 					}
 				}
 				pr := &pb.Regions{Region: regs, Count: counts}
